@@ -130,6 +130,7 @@ NoArr == [at |-> "", more |-> FALSE, exp |-> 0, act |-> 0, total |-> 0,
           built |-> <<>>, u8 |-> "s", rem |-> <<>>, gok |-> TRUE]
 
 (* lim = [depth, objs, abytes, idlen, refs]; abytes = 0 means unlimited    *)
+(* refs = min(MaxMarkerCount, MaxLocalReferenceCount): both bound markers  *)
 InitState(lim, dv) ==
   [ st     |-> "ok",
     why    |-> "",
